@@ -284,7 +284,10 @@ func parseTagTo(toVal string, isHasEqual bool) (min int, max int, err error) {
 
 // RemoveTypePtr 移除多指针
 func RemoveTypePtr(t reflect.Type) reflect.Type {
-	for t.Kind() == reflect.Ptr {
+	for depth := 0; t.Kind() == reflect.Ptr; depth++ {
+		if depth > maxTypeDepth { // 自引用的指针类型(如: type P *P)没有尽头
+			break
+		}
 		t = t.Elem()
 	}
 	return t
